@@ -35,6 +35,12 @@ type faultProgram struct {
 	model    *pgen.Model
 	obs      *vmon.Obs
 	calls    []string
+	extra    []string // further mrp options of this program's runs (e.g. --zip)
+}
+
+// args: the mrp options of every run of the program.
+func (fp *faultProgram) args() []string {
+	return append(mrpArgs(fp.vdr), fp.extra...)
 }
 
 func mrpArgs(vdr string) []string {
@@ -152,7 +158,7 @@ func treeDiff(a, b map[string]string) string {
 
 // makeFaultProgram generates programs until one compiles and completes a
 // clean baseline run with at least minJobs jobs.
-func makeFaultProgram(c *vf.Ctx, seed int64, cfg *pgen.Config, vdr string, tweak func(*pgen.Spec), minJobs int, template int) *faultProgram {
+func makeFaultProgram(c *vf.Ctx, seed int64, cfg *pgen.Config, vdr string, tweak func(*pgen.Spec), minJobs int, template int, extra ...string) *faultProgram {
 	for attempt := 0; attempt < 30; attempt++ {
 		s := seed + int64(attempt)*7919
 		cfg.SrcFor = vrun.ProbeSrc(c.BuildDir)
@@ -191,7 +197,7 @@ func makeFaultProgram(c *vf.Ctx, seed int64, cfg *pgen.Config, vdr string, tweak
 			}
 			continue
 		}
-		r := cs.Run(vrun.RunOpts{Args: mrpArgs(vdr), Seed: s, Timeout: 120 * time.Second})
+		r := cs.Run(vrun.RunOpts{Args: append(mrpArgs(vdr), extra...), Seed: s, Timeout: 120 * time.Second})
 		if os.Getenv("VERIF_DEBUG") != "" {
 			fmt.Fprintf(os.Stderr, "makeFaultProgram: template %d seed %d exit %d timedout %v: %s\n", template, s, r.Exit, r.TimedOut, tail(r.Output, 600))
 		}
@@ -201,12 +207,13 @@ func makeFaultProgram(c *vf.Ctx, seed int64, cfg *pgen.Config, vdr string, tweak
 			c.Count("baseline_runs_failed", 1)
 			continue
 		}
+		cs.UnzipMetadata() // --zip: read the archived metadata
 		obs := vmon.Collect(cs, vmon.StageCallPaths(p))
 		if len(obs.Jobs) < minJobs {
 			os.RemoveAll(dir)
 			continue
 		}
-		fp := &faultProgram{seed: s, prog: p, cfg: cfg, tweak: tw, vdr: vdr, jobStage: map[string]string{}, jobPhase: map[string]string{}}
+		fp := &faultProgram{seed: s, prog: p, cfg: cfg, tweak: tw, vdr: vdr, extra: extra, jobStage: map[string]string{}, jobPhase: map[string]string{}}
 		top := p.Pipeline(p.Top.Callee)
 		fp.baseOuts = canonOuts(cs, top.Name)
 		fp.baseTree = outsTree(cs)
@@ -236,6 +243,16 @@ type crashSpec struct {
 	// job-side kill of mrp
 	Job   string `json:"job,omitempty"`
 	JobAt string `json:"job_at,omitempty"`
+}
+
+func lastMrpPid(trace []vrun.TraceRec) int {
+	pid := 0
+	for _, t := range trace {
+		if t.Proc == "mrp" {
+			pid = t.Pid
+		}
+	}
+	return pid
 }
 
 func (s crashSpec) String() string {
@@ -322,7 +339,7 @@ func runCrashCase(c *vf.Ctx, fp *faultProgram, idx int, specs []crashSpec) *cras
 		}
 	}
 	for si, sp := range specs {
-		opts := vrun.RunOpts{Args: mrpArgs(fp.vdr), Seed: fp.seed, Timeout: 90 * time.Second}
+		opts := vrun.RunOpts{Args: fp.args(), Seed: fp.seed, Timeout: 90 * time.Second}
 		if pt, ok := monitorPoints[sp.JobAt]; ok && sp.Job != "" {
 			// the job's monitor (mrjob) signals mrp at one of its own hook points
 			opts.Env = append(opts.Env, fmt.Sprintf("VERIF_KILL_PARENT=%s#1:%s@%s", pt, sp.Signal, strings.ReplaceAll(sp.Job, "/", ".")))
@@ -387,6 +404,25 @@ func runCrashCase(c *vf.Ctx, fp *faultProgram, idx int, specs []crashSpec) *cras
 				}
 			}
 		}
+		// interrupted after post-processing had begun: mrp had recorded the
+		// completion of every job (their markers may by now be in the archive)
+		if pid := lastMrpPid(cs.Trace()); pid != 0 {
+			inPost := false
+			for _, t := range cs.Trace() {
+				if t.Pid == pid && t.Name == "ps:postprocess" {
+					inPost = true
+				}
+			}
+			if inPost {
+				for _, e := range cs.Events() {
+					if e.Ev == "end" {
+						if _, ok := done[logicalJob(e.Job)]; !ok {
+							done[logicalJob(e.Job)] = exitWall
+						}
+					}
+				}
+			}
+		}
 		// completion markers durably recorded before the interruption
 		for j, mt := range completedJobs(cs) {
 			if mt.Before(exitWall.Add(-60 * time.Millisecond)) {
@@ -399,7 +435,7 @@ func runCrashCase(c *vf.Ctx, fp *faultProgram, idx int, specs []crashSpec) *cras
 	// final clean restart
 	lastRestartT = vrun.Mono()
 	oc.restarts++
-	r := cs.Run(vrun.RunOpts{Args: mrpArgs(fp.vdr), Seed: fp.seed, Timeout: 120 * time.Second})
+	r := cs.Run(vrun.RunOpts{Args: fp.args(), Seed: fp.seed, Timeout: 120 * time.Second})
 	if r.TimedOut {
 		if n := idleLoops(cs.Trace(), 0); n >= 20 {
 			add("stalled-after-restart", fmt.Sprintf("restarted mrp made no progress for %d loop iterations after crash %v; log tail: %s", n, specs, tail(stripDump(r.Output), 600)))
@@ -414,6 +450,9 @@ func runCrashCase(c *vf.Ctx, fp *faultProgram, idx int, specs []crashSpec) *cras
 	}
 	checkReexec()
 	oc.reexecChecked = len(done)
+	if _, err := cs.UnzipMetadata(); err != nil {
+		add("metadata-archive-unreadable", fmt.Sprintf("after crash %v and restart the metadata archive (--zip) cannot be read: %v", specs, err))
+	}
 	if got := canonOuts(cs, top.Name); got != fp.baseOuts {
 		add("final-outs-differ", fmt.Sprintf("after crash %v and restart the top-level outputs are %s; uninterrupted run: %s", specs, truncate(got, 700), truncate(fp.baseOuts, 700)))
 	}
@@ -546,7 +585,7 @@ func init() {
 						// decimal-width boundary: every split defines exactly 10 chunks
 						s.Rules = append(s.Rules, pgen.Rule{Phase: "split", Chunks: 11})
 					}
-				}, map[bool]int{false: 6, true: 3}[tmpl > pgen.NTemplates], tmpl)
+				}, map[bool]int{false: 6, true: 3}[tmpl > pgen.NTemplates], tmpl, map[bool][]string{true: {"--zip"}}[pi%4 == 2]...)
 			if fp == nil {
 				c.Inconclusive("no baseline program")
 				continue
@@ -886,7 +925,7 @@ func runFailCase(c *vf.Ctx, fp *faultProgram, idx int, fs failSpec) *failOutcome
 		}
 	}
 	cs.WriteSpec()
-	args := append(mrpArgs(fp.vdr), fmt.Sprintf("--autoretry=%d", fs.AutoRetry))
+	args := append(fp.args(), fmt.Sprintf("--autoretry=%d", fs.AutoRetry))
 	if fs.Fail == "wrong_type" || fs.Fail == "missing_key" {
 		args = append(args, "--strict=error")
 	}
@@ -1013,7 +1052,7 @@ func runFailCase(c *vf.Ctx, fp *faultProgram, idx int, fs failSpec) *failOutcome
 	cs.Spec.Rules = baseRules
 	cs.WriteSpec()
 	t0 := vrun.Mono()
-	r2 := cs.Run(vrun.RunOpts{Args: append(mrpArgs(fp.vdr), "--autoretry=0"), Seed: fp.seed, Timeout: 120 * time.Second})
+	r2 := cs.Run(vrun.RunOpts{Args: append(fp.args(), "--autoretry=0"), Seed: fp.seed, Timeout: 120 * time.Second})
 	if r2.TimedOut {
 		if n := idleLoops(cs.Trace(), 0); n >= 20 {
 			add("stalled-after-fault-removed:"+fs.Fail, fmt.Sprintf("restart after removing fault %v made no progress for %d loop iterations", fs, n))
